@@ -174,9 +174,9 @@ def gen_case(rng, backend, ties: bool, dfs=None, fixed=None):
 def gen_history(rng, backend):
     """2-3 clusterings on ONE linker; the predictions are re-registered under the same name
     (register_table_predict(..., overwrite=True)) before every call, mostly with the same threshold
-    and duplicate-free datasets.  The output of a call is kept alive unless a later call has the same
-    threshold and duplicate-free datasets (that combination is KF-C12-history-stale-output and is
-    exercised by its own witness)."""
+    and duplicate-free datasets.  The output of a call is kept alive or dropped at random (a kept output
+    followed by a call with the same threshold and duplicate-free datasets is the class of
+    FX-C12-history-stale-output, which also has its own witness)."""
     base = gen_case(rng, backend, ties=rng.random() < 0.3)
     calls = [base]
     for _ in range(rng.choice([1, 1, 2])):
@@ -189,8 +189,7 @@ def gen_history(rng, backend):
         if rng.random() < 0.15:
             c["edges"] = list(calls[-1]["edges"])          # the same predictions again
         calls.append(c)
-    key = [(json.dumps(c["thr"]), c["thr_weight"], tuple(c["dfs"])) for c in calls]
-    keep = [rng.random() < 0.6 and key[i] not in key[i + 1:] for i in range(len(calls))]
+    keep = [rng.random() < 0.6 for _ in calls]
     return {"calls": calls, "keep_output": keep}
 
 
@@ -588,7 +587,8 @@ def known_witnesses(ctx: Ctx):
         ctx.expect_known("FX-C12-ties-disconnected", False, "the witness yields connected clusters")
 
 
-# KF-C12-history-stale-output: same predictions name, same threshold and duplicate-free datasets, same
+# FX-C12-history-stale-output (fixed in /repo 0a6ad70f; a regression is reported as a plain violation):
+# same predictions name, same threshold and duplicate-free datasets, same
 # number of iterations, first result still alive -> the second call returns the first call's clusters
 HIST_WITNESS = {"backend": "duckdb", "names": ["a", "b"], "nodes": [("a", 0), ("b", 1), ("a", 2), ("b", 3)],
                 "thr": 512, "thr_weight": None, "dfs": ["a", "b"], "form": "single", "ties_wanted": False}
@@ -612,7 +612,7 @@ def history_witness(ctx: Ctx):
                           f"the second call returns the first call's clusters while the first result is alive ({backend})", rep,
                           {"kind": "history_stale_output", "history": True, "outputs_kept": True, "backend": backend})
         else:
-            ctx.expect_known("KF-C12-history-stale-output", False, "the second call now returns its own clusters")
+            ctx.expect_known("FX-C12-history-stale-output", False, "the second call returns its own clusters")
 
 
 def correspondence(ctx: Ctx):
